@@ -31,6 +31,13 @@ void vt_i64(int64_t v) {
     fprintf(vt_out, "[%" PRId64 ",%" PRId64 ",%" PRId64 "]", hh, hl, lo);
 }
 
+void vt_big(int64_t v) {
+    int neg = v < 0; uint64_t u = neg ? (uint64_t)(-(v + 1)) + 1 : (uint64_t)v;
+    fprintf(vt_out, "{\"s\":%d,\"l\":[", neg);
+    for (int i = 0; i < 5; i++) { fprintf(vt_out, "%s%u", i ? "," : "", (unsigned)(u % 16807)); u /= 16807; }
+    fputs("]}", vt_out);
+}
+
 static uint64_t rs = 0x9E3779B97F4A7C15ULL;
 void vt_seed(uint64_t s) { rs = s * 0x9E3779B97F4A7C15ULL + 0x1234567ULL; }
 uint64_t vt_rand(void) {
